@@ -19,11 +19,28 @@ impl<'a> Index<'a> {
     /// The caller must specify whether the data comes from a `CFF2` table.
     pub fn new(data: &'a [u8], is_cff2: bool) -> Result<Self, Error> {
         let data = FontData::new(data);
-        Ok(if is_cff2 {
-            Index2::read(data).map(|ix| ix.into())?
+        let result = if is_cff2 {
+            Index2::read(data).map(|ix| ix.into())
         } else {
-            Index1::read(data).map(|ix| ix.into())?
-        })
+            Index1::read(data).map(|ix| ix.into())
+        };
+        match result {
+            Ok(index) => Ok(index),
+            Err(e) => {
+                // An empty INDEX consists of the count field alone (there is
+                // no offSize) and may be the very last thing in the table.
+                let count = if is_cff2 {
+                    data.read_at::<u32>(0)
+                } else {
+                    data.read_at::<u16>(0).map(|count| count as u32)
+                };
+                if count == Ok(0) {
+                    Ok(Self::Empty)
+                } else {
+                    Err(e.into())
+                }
+            }
+        }
     }
 
     /// Returns the number of objects in the index.
@@ -282,6 +299,20 @@ mod tests {
             off_size: 4,
             count: 256,
         });
+    }
+
+    /// An empty INDEX is just the count field; it must be readable when
+    /// nothing follows it.
+    #[test]
+    fn empty_index_at_end_of_data() {
+        let index = Index::new(&[0, 0], false).unwrap();
+        assert_eq!(index.count(), 0);
+        let index = Index::new(&[0, 0, 0, 0], true).unwrap();
+        assert_eq!(index.count(), 0);
+        // but a non-zero count with missing data is still an error
+        assert!(Index::new(&[0, 1], false).is_err());
+        assert!(Index::new(&[0, 0, 0, 1], true).is_err());
+        assert!(Index::new(&[0], false).is_err());
     }
 
     fn test_index(params: IndexParams) {
